@@ -13,9 +13,13 @@ CONSTANTS
  MaxAdmin = 3
  MaxClose = 1
  MaxInval = 1
+ MaxCompact = 1
  FixRelease = TRUE
  DevReleaseRace = FALSE
  DevPutIfOwnerOther = FALSE
+ DevReacqBlind = FALSE
+ DevDropSameRev = FALSE
+ DevNoReload = FALSE
  FixRev = TRUE
  KeepHist = TRUE
 INIT Init
